@@ -179,3 +179,79 @@ def twin_never_rejects(a: int, b: int) -> bool:
     post: _
     """
     return run_real(list(PREFIX) + [a, b], False)["doc"] is not None
+
+
+# ---------------------------------------------------------------- C16: blank / comment line insertion through the real parser
+
+INS = param("ins", pdrive.EMPTY)
+
+
+def _shift(node, at):
+    """line numbers >= at move down by one"""
+    if isinstance(node, dict):
+        out = {}
+        for k, v in node.items():
+            if k == "line" and isinstance(v, int):
+                out[k] = v + 1 if v >= at else v
+            else:
+                out[k] = _shift(v, at)
+        return out
+    if isinstance(node, list):
+        return [_shift(x, at) for x in node]
+    return node
+
+
+def insertion_neutral(a: int, b: int) -> bool:
+    """
+    pre: _kinds_ok([a, b])
+    post: _
+    """
+    # a blank line (or a comment line) inserted directly before line a: the AST only moves line numbers (and gains the comment),
+    # errors only move their line.  Stated for positions outside descriptions and doc strings: where the grammar explicitly
+    # expects #Empty (blank) resp. where line a is a keyword / step / tag / table-row / delimiter line (comment).
+    base = list(PREFIX) + [a, b]
+    at = len(PREFIX) + 1
+    A = run_real(base, False)
+    spec = specparse._run(list(PREFIX), False, specparse.CFG, eof=False)
+    c = spec["final"][0] if spec["final"] else None
+    if c is None or spec["errors"]:
+        return True
+    asks_empty = any(t == "#Empty" for (t, _, _, _) in specparse.CFG[c])
+    in_doc = spec["final"][1] is not None
+    if INS == pdrive.EMPTY:
+        if not asks_empty:
+            return True
+    else:
+        if in_doc or a in (pdrive.EMPTY, pdrive.COMMENT, pdrive.OTHER, pdrive.LANGUAGE, pdrive.LANGBAD, pdrive.TAGBAD):
+            return True
+        if not asks_empty and not any(t == "#Comment" for (t, _, _, _) in specparse.CFG[c]):
+            return True
+    sym.reach("applicable")
+    B = run_real(list(PREFIX) + [INS, a, b], False)
+    if (A["doc"] is None) != (B["doc"] is None):
+        return False
+    if A["doc"] is not None:
+        want = _shift(A["doc"], at)
+        if INS == pdrive.COMMENT:
+            want = dict(want)
+            want["comments"] = sorted(list(want["comments"]) + [{"location": {"line": at, "column": 1}, "text": pdrive.TEXT[pdrive.COMMENT]}],
+                                      key=lambda cm: cm["location"]["line"])
+        return _strip_ids(B["doc"]) == _strip_ids(want)
+    ea = [(cls, ln + 1 if ln >= at else ln, payload) for (cls, ln, payload) in A["errors"]]
+    return B["errors"] == ea
+
+
+def _strip_ids(node):
+    if isinstance(node, dict):
+        return {k: _strip_ids(v) for k, v in node.items()}
+    if isinstance(node, list):
+        return [_strip_ids(x) for x in node]
+    return node
+
+
+def insertion_neutral1(a: int) -> bool:
+    """
+    pre: _kinds_ok([a])
+    post: _
+    """
+    return insertion_neutral(a, param("next", pdrive.STEP))
